@@ -385,4 +385,52 @@ def run(prog: Program, res: Result) -> None:  # noqa: PLR0912, PLR0915
         res.ok("C06.R5", f"{gs.file}:{gs.node.lineno} RenderContext.get_size_of_locals", what, "sum(getsizeof(values)) + carry")
     else:
         res.fail("C06.R5", file=ctx.file, line=gs.node.lineno if gs else 0, qualname="RenderContext.get_size_of_locals", construct="size computation", message="namespace size no longer includes the carry from parent contexts", what=what)
+    # ------------------------------------------------------------------ R6 block.super renders inside the block's own context
+    res.rule("C06.R6", "the BlockDrop handed to an overriding block renders `block.super` in that block's own (block-scoped) context, where the loops around it are registered and its assignments are counted: after `ctx = context.copy(..., block_scope=True)` the drop's context is set to ctx")
+    bn = prog.cls("liquid2.builtin.tags.extends_tag.BlockNode")
+    n_bd = 0
+    for nm in ("render_to_output", "render_to_output_async"):
+        m = bn.methods.get(nm)
+        if m is None:
+            raise AnalysisError(f"BlockNode.{nm} vanished")
+        for a in ast.walk(m.node):
+            if not (isinstance(a, ast.Assign) and isinstance(a.value, ast.Call) and isinstance(a.value.func, ast.Attribute) and a.value.func.attr == "copy" and any(k.arg == "block_scope" and isinstance(k.value, ast.Constant) and k.value.value is True for k in a.value.keywords)):
+                continue
+            n_bd += 1
+            ctx_name = a.targets[0].id if isinstance(a.targets[0], ast.Name) else None
+            ns = next((k.value for k in a.value.keywords if k.arg == "namespace"), None)
+            drop = ns.values[0] if isinstance(ns, ast.Dict) and ns.values else None
+            site = f"{m.file}:{a.lineno} BlockNode.{nm}"
+            what = f"BlockNode.{nm}: the block drop renders super in `{ctx_name}`"
+            rebound = isinstance(drop, ast.Name) and any(isinstance(s_, ast.Assign) and s_.lineno > a.lineno and any(isinstance(t, ast.Attribute) and t.attr == "context" and isinstance(t.value, ast.Name) and t.value.id == drop.id for t in s_.targets) and isinstance(s_.value, ast.Name) and s_.value.id == ctx_name for s_ in ast.walk(m.node))
+            if rebound:
+                res.ok("C06.R6", site, what, f"`{drop.id}.context = {ctx_name}` after the copy")
+            else:
+                res.fail("C06.R6", file=m.file, line=a.lineno, qualname=f"BlockNode.{nm}", construct=f"{nm}: block drop keeps the outer context", message=f"the BlockDrop given to the overriding block keeps the context the block tag was rendered from: `{{{{ block.super }}}}` used inside a for loop renders the parent block outside that loop's iteration count (and its assignments outside the block's namespace count), so loop_iteration_limit / local_namespace_limit are exceeded without an error", what=what)
+    res.floor("C06.R6", "block-scoped copies in BlockNode", n_bd, 2)
+    # ------------------------------------------------------------------ R7 "no limit" is None, never a falsy limit
+    res.rule("C06.R7", "a configured limit is compared with None to find out whether it applies: no `*_limit` attribute of the environment is used as a bare truth value (0 is a limit, not 'unlimited')")
+    n_lim = 0
+    for mod in prog.modules.values():
+        for t in ast.walk(mod.tree):
+            tests: list[ast.AST] = []
+            if isinstance(t, (ast.If, ast.IfExp, ast.While)):
+                tests = [t.test]
+            elif isinstance(t, ast.BoolOp):
+                tests = list(t.values)
+            elif isinstance(t, ast.UnaryOp) and isinstance(t.op, ast.Not):
+                tests = [t.operand]
+            for e in tests:
+                if isinstance(e, ast.Attribute) and e.attr.endswith("_limit") and "env" in norm(e.value):
+                    n_lim += 1
+                    fi = prog.enclosing_function(mod, e)
+                    q = fi.qualname if fi else "<module>"
+                    res.fail("C06.R7", file=mod.relpath, line=e.lineno, qualname=q, construct=f"{norm(e)} used as a truth value in {q}", message=f"`{norm(e)}` is tested for truth in {q}: a limit of 0 is treated as 'no limit' and nothing is enforced", what=f"`{norm(e)}` compared with None")
+    n_cmp = 0
+    for mod in prog.modules.values():
+        for c in ast.walk(mod.tree):
+            if isinstance(c, ast.Compare) and isinstance(c.left, ast.Attribute) and c.left.attr.endswith("_limit") and isinstance(c.ops[0], (ast.Is, ast.IsNot)) and isinstance(c.comparators[0], ast.Constant) and c.comparators[0].value is None:
+                n_cmp += 1
+                res.ok("C06.R7", f"{mod.relpath}:{c.lineno} {prog.qual_at(mod, c)}", f"`{norm(c)}`", "None means unlimited")
+    res.floor("C06.R7", "limit presence tests (is / is not None)", n_cmp, 1)
     del out_mod
